@@ -69,6 +69,14 @@ ProjOfListed(pre, kind, nm) ==
 Detail(pre, e, c) ==
   CASE e.op = "List" /\ c = "C12:list-extra" ->
          ToJson(<<e.kind, e.proj, UNION {ProjOfListed(pre, e.kind, e.names[i]) : i \in DOMAIN e.names} \ {e.proj}>>)
+    [] c = "C05:pull-overtakes-same-key" ->
+         \* structural class: is the IMMEDIATE same-key predecessor of every overtaking delivery already
+         \* completed / expired (the chain was cut behind an earlier outstanding one), or still outstanding?
+         LET O == {e.got[i].d : i \in {j \in DOMAIN e.got : e.got[j].d \in Dels(pre) /\ Blocked(pre, e.got[j].d, e.t1)}}
+             SK(d) == {x \in Preds(pre, d) : KeyOf(pre, x) = KeyOf(pre, d)}
+             Imm(d) == CHOOSE x \in SK(d) : \A y \in SK(d) : pre.del[y].n <= pre.del[x].n
+         IN IF \A d \in O : ~OutDef(pre, Imm(d), e.t1) THEN "immediate-predecessor-completed"
+            ELSE "immediate-predecessor-outstanding"
     [] e.op \in {"List", "Get"} -> e.kind
     [] e.op = "Failed" -> ToJson(<<e.of, e.kind, e.mode>>)
     [] OTHER -> ""
